@@ -119,3 +119,10 @@ TEXT["C14"] = {
     "note": "trusts libsimplicity's tables and the DWARF of the C objects built by simplicity-sys's build script with CFLAGS=-g",
     "technique": "exhaustive table monitors + differential jet execution + gdb FFI-boundary tracer",
 }
+TEXT["C15"] = {
+    "level": ("Thousands of generated transaction environments, each read back through every environment jet at in-range and out-of-range indices and compared with an independent extractor over the harness's own transaction model; "
+              "decides the field jets on each explored environment; aggregate digests are only checked for build-independence and the sighash identity."),
+    "design_ref": "DESIGN.md section 5, C15",
+    "note": "trusts the harness transaction model (harness/src/txgen.rs), its SHA-256 and the documented jet encodings",
+    "technique": "reference-model monitor (field extractor) over generated transaction environments, plus memory sanitizers on the marshalling path",
+}
